@@ -338,7 +338,7 @@ public:
             return send_pubrel(std::move(pubrel), true);
         }
 
-        return complete(ec, pubrel.packet_id(), *rc);
+        return complete(ec, pubrel.packet_id(), *rc, std::move(props));
     }
 
 private:
